@@ -1,7 +1,8 @@
 CONSTANTS
   Fields = {1, 3, 4, 5}
   Sizes = {0, 40, 4096}
-  MaxOps = 6
+  MaxOps = 4
+  MaxSets = 2
   Defects = {"NoEvict"}
 SPECIFICATION Spec
 INVARIANTS NoError RoundTrip TablesEqual SizeBound SensitiveKept
